@@ -54,6 +54,9 @@ type Case struct {
 	// finding (interleavings of the application's goroutines with the client's are the Go
 	// scheduler's: a lock-order problem shows only in some runs)
 	Rep int `json:"rep,omitempty"`
+	// Ops > 1: every request of the script and of the burst carries this many operations
+	// (a client with thousands of operations outstanding when the stream breaks)
+	Ops int `json:"ops,omitempty"`
 }
 
 func setup() {
@@ -74,9 +77,19 @@ func classErr(c string) error {
 	return status.Error(codes.Canceled, "context canceled")
 }
 
-func opReq(id uint64) *spb.ModifyRequest {
+func opReq(id uint64) *spb.ModifyRequest { return opReqN(id, 1) }
+
+// extraID is the id of the j-th further operation (j >= 1) of the request whose first operation is id.
+func extraID(id uint64, j int) uint64 { return 1_000_000*id + uint64(j) }
+
+func opReqN(id uint64, n int) *spb.ModifyRequest {
 	o := &gen.Op{ID: id, NI: "DEFAULT", Kind: gen.NH, Act: gen.ADD, Key: fmt.Sprint(id%4 + 1), IP: "192.0.2.1", Elec: &gen.ID128{Lo: 1}}
-	return &spb.ModifyRequest{Operation: []*spb.AFTOperation{o.Proto()}}
+	r := &spb.ModifyRequest{Operation: []*spb.AFTOperation{o.Proto()}}
+	for j := 1; j < n; j++ {
+		x := &gen.Op{ID: extraID(id, j), NI: "DEFAULT", Kind: gen.NH, Act: gen.ADD, Key: fmt.Sprint(j%4 + 1), IP: "192.0.2.1", Elec: &gen.ID128{Lo: 1}}
+		r.Operation = append(r.Operation, x.Proto())
+	}
+	return r
 }
 
 // within runs f and reports whether it returned within the watchdog.
@@ -132,7 +145,24 @@ func census(ignore map[int64]bool) (leak string) {
 }
 
 // respond answers request i (1-based) the way a conformant server does.
-func respond(st *cstub.Stream, id uint64, fib bool) int {
+func respond(st *cstub.Stream, id uint64, fib bool) int { return respondN(st, id, fib, 1) }
+
+func respondN(st *cstub.Stream, id uint64, fib bool, n int) int {
+	if n > 1 {
+		m := &spb.ModifyResponse{}
+		for j := 0; j < n; j++ {
+			x := id
+			if j > 0 {
+				x = extraID(id, j)
+			}
+			m.Result = append(m.Result, &spb.AFTResult{Id: x, Status: spb.AFTResult_RIB_PROGRAMMED})
+			if fib {
+				m.Result = append(m.Result, &spb.AFTResult{Id: x, Status: spb.AFTResult_FIB_PROGRAMMED})
+			}
+		}
+		st.Respond(m)
+		return 1
+	}
 	if fib {
 		st.Respond(&spb.ModifyResponse{Result: []*spb.AFTResult{{Id: id, Status: spb.AFTResult_RIB_PROGRAMMED}, {Id: id, Status: spb.AFTResult_FIB_PROGRAMMED}}})
 	} else {
@@ -191,7 +221,7 @@ func runCase(c Case) *ev.Verdict {
 	q := func() bool {
 		nextID++
 		id := nextID
-		return within(func() { cl.Q(opReq(id)) })
+		return within(func() { cl.Q(opReqN(id, max(1, c.Ops))) })
 	}
 	// the scripted exchange: handshake (2 messages) + NReq requests; the server
 	// answers each message once it has arrived
@@ -317,7 +347,7 @@ func runCase(c Case) *ev.Verdict {
 		case 2:
 			st.Respond(&spb.ModifyResponse{ElectionId: &spb.Uint128{Low: 1}})
 		default:
-			respond(st, uint64(m-2), c.FIB)
+			respondN(st, uint64(m-2), c.FIB, max(1, c.Ops))
 		}
 		responses++
 	}
@@ -632,6 +662,26 @@ func TestCampaign(t *testing.T) {
 			c.Epilogue = "close"
 			c.Rep = ev.Pick("C14_CONTENTION_REP", 25, 100)
 			v := runCase(c)
+			col.Check(rt, ev.JSON(c), v)
+		})
+	})
+	t.Run("many-outstanding", func(t *testing.T) {
+		// requests of K operations each (K around powers of two up to 8193): thousands of
+		// operations are outstanding when the stream breaks, and more are queued afterwards
+		ks := []int{255, 256, 257, 1023, 1024, 1025, 2047, 2048, 2049, 4095, 4096, 4097, 8191, 8192, 8193}
+		rapid.Check(t, func(rt *rapid.T) {
+			if rapid.IntRange(0, 3).Draw(rt, "run?") != 0 {
+				return
+			}
+			c := Case{FIB: rapid.Bool().Draw(rt, "fib"), NReq: rapid.IntRange(1, 4).Draw(rt, "nreq"), Ops: ks[rapid.IntRange(0, len(ks)-1).Draw(rt, "ops")]}
+			c.Side = sides[rapid.IntRange(0, 2).Draw(rt, "side")]
+			c.At = rapid.IntRange(2, 2+c.NReq).Draw(rt, "at")
+			c.Class = classes[rapid.IntRange(0, 3).Draw(rt, "class")]
+			c.Burst = rapid.IntRange(1, 4).Draw(rt, "burst")
+			c.Epilogue = []string{"close", "reset-reconnect"}[rapid.IntRange(0, 1).Draw(rt, "epilogue")]
+			c.Waiters = rapid.IntRange(0, 1).Draw(rt, "waiters")
+			v := runCase(c)
+			v.Class("many-outstanding")
 			col.Check(rt, ev.JSON(c), v)
 		})
 	})
